@@ -112,6 +112,11 @@ def port_text(rng, plat, vm, proto):
 
 def ace_text(rng, plat, vm):
     protos = tables()["protos"]
+    if plat == "ios" and rng.random() < 0.06:      # standard entry (no protocol): action, one address in any accepted spelling, log
+        w = rand_w(rng, maxnc=2)
+        sp = spellings_ace(w, plat) + ([lex.bits_ip(w["base"])] if sum(w["mask"]) == 0 else [])
+        seq = rng.choice(["", "", "20", "4294967295"])
+        return " ".join(x for x in [seq, rng.choice(["permit", "deny"]), rng.choice(sp), rng.choice(["", "log", "log"])] if x)
     r = rng.random()
     if r < 0.45:
         ptxt, pname = rng.choice([("tcp", "tcp"), ("6", "tcp"), ("udp", "udp"), ("17", "udp")])
@@ -125,6 +130,9 @@ def ace_text(rng, plat, vm):
     fl = rng.sample(FLAGS, rng.choice([0, 0, 1, 2, 6])) if pname == "tcp" else []
     if pname == "tcp" and rng.random() < 0.1:
         fl = ["established"]
+    if rng.random() < 0.08:      # an option with an argument; the argument may be spelled like a port name
+        names = sorted(tables()[(plat, vm, pname or "tcp")])
+        fl = fl + [rng.choice(["time-range", "dscp", "precedence"]), rng.choice(["ftp", "time", "domain", "af11", "workhours"] + names[:3])]
     parts = [seq, rng.choice(["permit", "deny"]), ptxt, addr_text(rng, plat), port_text(rng, plat, vm, pname),
              addr_text(rng, plat), port_text(rng, plat, vm, pname), " ".join(fl), rng.choice(["", "", "log", "log-input"])]
     toks = [p for p in parts if p]
